@@ -340,7 +340,15 @@ def run_check(prop, tier):
                     left = r.get("stack", "")
                     lib_blocks = [b for b in left.split("\n\n") if LIB in b and "/testutil" not in b]
                     on_lock = [b for b in lib_blocks if re.match(r"goroutine \d+ \[(sync\.(RW)?Mutex|semacquire)", b.strip())]
-                    if on_lock and prop == "C20":
+                    if "all goroutines in bubble are blocked" in r["panic"]:
+                        # the case itself is stuck: a call into the library never returned although the whole
+                        # bubble is idle (no timer pending) - a hang, whatever property is being checked
+                        stuck = [b for b in lib_blocks if "verif/harness/chk" in b] or lib_blocks
+                        if stuck:
+                            violations.append(("call-never-returned " + top_lib_frame(stuck[0]), stuck[0][:3000], part["test"], r["index"], None))
+                        else:
+                            inconclusive.append(f"{part['test']}[{r['index']}]: bubble deadlocked outside library code: {left[:600]}")
+                    elif on_lock and prop == "C20":
                         violations.append(("goroutine-left-on-library-lock " + top_lib_frame(on_lock[0]), on_lock[0][:3000], part["test"], r["index"], None))
                     elif lib_blocks:
                         # parked on a channel/timer inside library code (e.g. a per-channel monitor that outlives
